@@ -32,6 +32,7 @@ func checkC02(c *Ctx) {
 		"G-C02-c3: Decrypt returns a non-nil error unless u equals C3 (the compared bytes are ciphertext[64:96])",
 		"G-C02-oncurve: C1 must pass IsOnCurve before the scalar multiplication with the private key",
 		"G-C02-kdfzero: a failing KDF (all-zero stream) is an error in Decrypt",
+		"FX-C02-inputs: Encrypt, Decrypt, their ASN.1 variants and the two ciphertext re-encoders write nothing through their byte-slice parameters (write-effect summary: an in-place reordering with append on a sub-slice of the input overwrites the ciphertext it is still reading)",
 		"K-C02-kdf: KDF = SM3(Z||ct) for ct=1,2,… as 4 big-endian bytes, ceil(len/32) blocks, last block truncated to len%32; reports all-zero output",
 		"B-IDX: every index/slice/make in Decrypt, Encrypt, CipherMarshal, CipherUnmarshal, DecryptAsn1, kdf is in bounds for every input (compiler prove pass or LinBounds)",
 		"K-C02-asn1: the ASN.1 form is SEQUENCE{x INTEGER, y INTEGER, hash OCTET STRING, cipher OCTET STRING} written from offsets 1/33/65/97 and read back with coordinates re-padded to 32 bytes")
@@ -41,6 +42,7 @@ func checkC02(c *Ctx) {
 	c02Decrypt(c)
 	c02KDF(c)
 	c02ASN1(c)
+	c02Inputs(c)
 
 	var fs []*ssa.Function
 	for _, n := range []string{"Decrypt", "Encrypt", "CipherMarshal", "CipherUnmarshal", "DecryptAsn1", "EncryptAsn1", "kdf", "intToBytes", "BytesCombine", "(*PrivateKey).Decrypt", "(*PrivateKey).DecryptAsn1", "(*PublicKey).EncryptAsn1"} {
@@ -744,4 +746,24 @@ func c02StructLit(be *bigEnv, v ssa.Value, at ssa.Instruction) string {
 		}
 	}
 	return strings.Join(parts, " ")
+}
+
+// c02Inputs: none of the SM2 encryption entry points writes the caller's plaintext / ciphertext bytes.
+func c02Inputs(c *Ctx) {
+	fx := getFX(c)
+	for _, n := range []string{"Encrypt", "Decrypt", "EncryptAsn1", "DecryptAsn1", "CipherMarshal", "CipherUnmarshal"} {
+		f := c.Fn("sm2", n)
+		if f == nil {
+			c.Missing("FX-C02-inputs", "sm2."+n, "function", "not found")
+			continue
+		}
+		w := fx.Writes(f)
+		for i, p := range f.Params {
+			if !isByteSlice(p.Type()) {
+				continue
+			}
+			wit, bad := w[root{Kind: rkParam, Idx: i}]
+			c.Check(!bad, "FX-C02-inputs", fname(f), "does not write "+pname(p), "", "the caller's "+pname(p)+" slice may be written: "+fx.describe(root{Kind: rkParam, Idx: i}, wit)+" — the bytes still to be read (C2, C3) are overwritten, or the caller's buffer is corrupted", wit.Pos)
+		}
+	}
 }
